@@ -25,9 +25,9 @@ A(mn, enc, c) == [I0 EXCEPT !.mn = mn, !.enc = enc, !.cond = c, !.len = 4]
 (* in the signed reading of the 32-bit result                                *)
 BitVal(t) == IF t = 31 THEN MinInt ELSE P2(t)
 ModImm(rot, b) == LET t(k) == (k + 32 - 2 * rot) % 32 IN
-    Bit(b, 0) * BitVal(t(0)) + Bit(b, 1) * BitVal(t(1)) + Bit(b, 2) * BitVal(t(2)) + Bit(b, 3) * BitVal(t(3))
-    + Bit(b, 4) * BitVal(t(4)) + Bit(b, 5) * BitVal(t(5)) + Bit(b, 6) * BitVal(t(6)) + Bit(b, 7) * BitVal(t(7))
-SBit(v, t) == IF t = 31 THEN (IF v < 0 THEN 1 ELSE 0) ELSE Bit(IF v < 0 THEN v - MinInt ELSE v, t)
+    IBit(b, 0) * BitVal(t(0)) + IBit(b, 1) * BitVal(t(1)) + IBit(b, 2) * BitVal(t(2)) + IBit(b, 3) * BitVal(t(3))
+    + IBit(b, 4) * BitVal(t(4)) + IBit(b, 5) * BitVal(t(5)) + IBit(b, 6) * BitVal(t(6)) + IBit(b, 7) * BitVal(t(7))
+SBit(v, t) == IF t = 31 THEN (IF v < 0 THEN 1 ELSE 0) ELSE IBit(IF v < 0 THEN v - MinInt ELSE v, t)
 Imm8Of(v, rot) == LET t(k) == (k + 32 - 2 * rot) % 32 IN          \* rotate left by 2 * rot, low 8 bits
     SBit(v, t(0)) + 2 * SBit(v, t(1)) + 4 * SBit(v, t(2)) + 8 * SBit(v, t(3))
     + 16 * SBit(v, t(4)) + 32 * SBit(v, t(5)) + 64 * SBit(v, t(6)) + 128 * SBit(v, t(7))
@@ -48,7 +48,7 @@ ImmShift(type, imm5) ==
 
 -----------------------------------------------------------------------------
 DecDpOperands(lo, hi, c, enc, i) ==                   \* i = the record with the second operand filled in
-    LET opc == Bits(hi, 5, 4)  m == DpMnA[opc + 1]  sf == Bit(hi, 4) = 1
+    LET opc == Bits(hi, 5, 4)  m == DpMnA[opc + 1]  sf == IBit(hi, 4) = 1
         rn == Bits(hi, 0, 4)  rd == Bits(lo, 12, 4) IN
     CASE m \in Compares -> IF rd # 0 THEN Bad("unpredictable", 4)
                            ELSE [i EXCEPT !.mn = m, !.enc = enc, !.cond = c, !.len = 4, !.s = TRUE, !.rn = rn]
@@ -57,7 +57,7 @@ DecDpOperands(lo, hi, c, enc, i) ==                   \* i = the record with the
       [] OTHER -> [i EXCEPT !.mn = m, !.enc = enc, !.cond = c, !.len = 4, !.s = sf, !.rd = rd, !.rn = rn]
 
 DecDpImm(lo, hi, c) ==                                \* cond 001 opcode S Rn Rd rot imm8
-    LET opc == Bits(hi, 5, 4)  sf == Bit(hi, 4)  rn == Bits(hi, 0, 4)
+    LET opc == Bits(hi, 5, 4)  sf == IBit(hi, 4)  rn == Bits(hi, 0, 4)
         rot == Bits(lo, 8, 4)  v == ModImm(rot, Bits(lo, 0, 8)) IN
     IF opc \in {2, 4} /\ sf = 0 /\ rn = PC                                   \* ADR (encodings A1 add, A2 sub)
     THEN [A("adr", IF opc = 2 THEN "adr_sub" ELSE "adr_add", c) EXCEPT      \* imm: the offset added to Align(PC, 4), mod 2^32
@@ -81,7 +81,7 @@ DecMul(lo, hi, c) ==                                  \* cond 0000 op(4) Rd Ra R
 
 AddrMode(p, w) == IF p = 1 THEN (IF w = 0 THEN "off" ELSE "pre") ELSE "post"
 DecExtra(lo, hi, c) ==                                \* cond 000 P U I W L Rn Rt imm4H 1 op2 1 imm4L/Rm  (A5.2.8)
-    LET p == Bit(hi, 8)  u == Bit(hi, 7)  ib == Bit(hi, 6)  w == Bit(hi, 5)  l == Bit(hi, 4)  op2 == Bits(lo, 5, 2)
+    LET p == IBit(hi, 8)  u == IBit(hi, 7)  ib == IBit(hi, 6)  w == IBit(hi, 5)  l == IBit(hi, 4)  op2 == Bits(lo, 5, 2)
         rn == Bits(hi, 0, 4)  rt == Bits(lo, 12, 4)
         m == IF op2 = 1 THEN (IF l = 1 THEN "ldrh" ELSE "strh")
              ELSE IF l = 0 THEN "dual" ELSE IF op2 = 2 THEN "ldrsb" ELSE "ldrsh"
@@ -108,7 +108,7 @@ DecMiscA(lo, hi, c) ==                                 \* cond 00010 op 0 ... 0 
 
 HintMnA == <<"nop", "yield", "wfe", "wfi", "sev">>
 DecLdst(lo, hi, c, reg) ==                            \* cond 01 R P U B W L Rn Rt imm12 | imm5 type 0 Rm  (A5.3)
-    LET p == Bit(hi, 8)  u == Bit(hi, 7)  b == Bit(hi, 6)  w == Bit(hi, 5)  l == Bit(hi, 4)
+    LET p == IBit(hi, 8)  u == IBit(hi, 7)  b == IBit(hi, 6)  w == IBit(hi, 5)  l == IBit(hi, 4)
         rn == Bits(hi, 0, 4)  rt == Bits(lo, 12, 4)  v == Bits(lo, 0, 12)
         m == IF l = 1 THEN (IF b = 1 THEN "ldrb" ELSE "ldr") ELSE (IF b = 1 THEN "strb" ELSE "str")
         sh == ImmShift(Bits(lo, 5, 2), Bits(lo, 7, 5)) IN
@@ -121,8 +121,8 @@ DecLdst(lo, hi, c, reg) ==                            \* cond 01 R P U B W L Rn 
 
 BlockMode(p, u) == IF u = 1 THEN (IF p = 1 THEN "ib" ELSE "ia") ELSE (IF p = 1 THEN "db" ELSE "da")
 DecBlock(lo, hi, c) ==                                \* cond 100 P U S W L Rn register_list   (A5.5)
-    LET p == Bit(hi, 8)  u == Bit(hi, 7)  w == Bit(hi, 5)  l == Bit(hi, 4)  rn == Bits(hi, 0, 4)  lst == RegSet(lo, 16) IN
-    IF Bit(hi, 6) = 1 THEN Bad("unsupported", 4)                             \* user registers / exception return
+    LET p == IBit(hi, 8)  u == IBit(hi, 7)  w == IBit(hi, 5)  l == IBit(hi, 4)  rn == Bits(hi, 0, 4)  lst == RegSet(lo, 16) IN
+    IF IBit(hi, 6) = 1 THEN Bad("unsupported", 4)                             \* user registers / exception return
     ELSE IF lst = {} \/ rn = PC THEN Bad("unpredictable", 4)
     ELSE IF l = 0 /\ p = 1 /\ u = 0 /\ w = 1 /\ rn = SP THEN [A("push", "block", c) EXCEPT !.rn = SP, !.list = lst, !.impl = {SP}]
     ELSE IF l = 1 /\ p = 0 /\ u = 1 /\ w = 1 /\ rn = SP THEN [A("pop", "block", c) EXCEPT !.rn = SP, !.list = lst, !.impl = {SP}]
@@ -130,13 +130,13 @@ DecBlock(lo, hi, c) ==                                \* cond 100 P U S W L Rn r
                                                               !.am = BlockMode(p, u) \o (IF w = 1 THEN "!" ELSE "")]
 
 DecodeW(lo, hi) ==
-    LET c == Bits(hi, 12, 4)  op1 == Bits(hi, 9, 3)  op == Bits(hi, 4, 5)  b4 == Bit(lo, 4)  b7 == Bit(lo, 7)
+    LET c == Bits(hi, 12, 4)  op1 == Bits(hi, 9, 3)  op == Bits(hi, 4, 5)  b4 == IBit(lo, 4)  b7 == IBit(lo, 7)
         misc == op \in {16, 18, 20, 22} IN                                   \* op = 10xx0
     IF c = 15 THEN Bad("unsupported", 4)                                     \* unconditional instructions (A5.7)
     ELSE CASE op1 = 0 ->                                                     \* table A5-2
                  (IF b4 = 1 /\ b7 = 1 THEN                                   \* 1xx1: multiplies, sync, extra load/store
                       (IF Bits(lo, 5, 2) = 0
-                       THEN (IF Bit(hi, 8) = 0 THEN DecMul(lo, hi, c) ELSE Bad("unsupported", 4))   \* swp ldrex strex
+                       THEN (IF IBit(hi, 8) = 0 THEN DecMul(lo, hi, c) ELSE Bad("unsupported", 4))   \* swp ldrex strex
                        ELSE DecExtra(lo, hi, c))
                   ELSE IF misc THEN (IF b7 = 0 THEN DecMiscA(lo, hi, c) ELSE Bad("unsupported", 4))  \* halfword multiply
                   ELSE IF b4 = 0 THEN DecDpReg(lo, hi, c) ELSE DecDpRsr(lo, hi, c))
@@ -158,13 +158,13 @@ DecodeW(lo, hi) ==
                        THEN [A("udf", "udf", c) EXCEPT !.imm = 16 * (256 * Bits(hi, 0, 4) + Bits(lo, 8, 8)) + Bits(lo, 0, 4)]
                   ELSE Bad("unsupported", 4))                                \* media instructions
            [] op1 = 4 -> DecBlock(lo, hi, c)
-           [] op1 = 5 -> [A(IF Bit(hi, 8) = 1 THEN "bl" ELSE "b", "branch", c) EXCEPT
+           [] op1 = 5 -> [A(IF IBit(hi, 8) = 1 THEN "bl" ELSE "b", "branch", c) EXCEPT
                                !.imm = 4 * SignExt(lo + 65536 * Bits(hi, 0, 8), 24)]
            [] op1 = 6 -> Bad("unsupported", 4)                               \* ldc stc mcrr mrrc, SIMD / VFP load/store
            [] op1 = 7 ->
-                 (IF Bit(hi, 8) = 1 THEN [A("svc", "svc", c) EXCEPT !.imm = lo + 65536 * Bits(hi, 0, 8)]
+                 (IF IBit(hi, 8) = 1 THEN [A("svc", "svc", c) EXCEPT !.imm = lo + 65536 * Bits(hi, 0, 8)]
                   ELSE IF b4 = 0 \/ Bits(lo, 8, 4) \in {10, 11} THEN Bad("unsupported", 4)   \* cdp, VFP / SIMD transfers
-                  ELSE [A(IF Bit(hi, 4) = 1 THEN "mrc" ELSE "mcr", "cop", c) EXCEPT !.rd = Bits(lo, 12, 4),
+                  ELSE [A(IF IBit(hi, 4) = 1 THEN "mrc" ELSE "mcr", "cop", c) EXCEPT !.rd = Bits(lo, 12, 4),
                              !.cp = <<Bits(lo, 8, 4), Bits(hi, 5, 3), Bits(hi, 0, 4), Bits(lo, 0, 4), Bits(lo, 5, 3)>>])
 DecodeA(b) == IF Len(b) # 4 THEN Bad("undefined", Len(b)) ELSE DecodeW(b[1] + 256 * b[2], b[3] + 256 * b[4])
 
